@@ -276,7 +276,7 @@ class Builder:
 
             return PList([self.reflect_value(x, interp) for x in v])
         if type(v).__name__ == "EventWrapper":
-            return SObj(class_of("hypercorn.typing:Event"), {"flag": v.is_set()})
+            return SObj(class_of("hypercorn.typing:Event"), {"flag": v.is_set(), "g_sticky": False})
         import enum
 
         if isinstance(v, enum.Enum):
